@@ -57,6 +57,27 @@ def func_range_files():
     return [("MODULE Linux x86 ABC name\nFILE 1 a.c\nINLINE_ORIGIN 2 inl\n" + t + "\nFILE 5 after\n").encode() for t in out]
 
 
+def win_overlap_files():
+    """Two or three STACK WIN records of one kind (frame data / FPO) whose ranges are identical, start at the same address with a
+    different size, nest, overlap at either end, touch, or are disjoint (plus size 0 and the top of the address space), in every
+    order: every branch of insert_win_stack_info (the size fix-up with its `memory_range().unwrap()`, the silently dropped
+    duplicate, the dropped bad intersection) and of the range-map builder behind it.  Syntactically valid: must parse."""
+    out = []
+    second = [(0x1000, 0x10), (0x1000, 8), (0x1000, 0x20), (0x1004, 4), (0x1008, 0x10), (0x100f, 1), (0x1010, 0x10), (0x2000, 8),
+              (0xff8, 0x10), (0xff8, 8), (0x800, 8), (0x1000, 0), (0x1001, 0xffffffff), (0xfffffffffffffff8, 8), (0xfffffffffffffff8, 9)]
+    third = [(0x1000, 0x10), (0x1004, 4), (0x1008, 0x10), (0x1010, 8), (0x800, 0x1000), (0x1000, 1)]
+    kinds = [("STACK WIN 4 %x %x 0 0 0 0 0 0 1 $eip 4 + ^ =", "STACK WIN 0 %x %x 0 0 4 0 0 0 0 1"),
+             ("STACK WIN 0 %x %x 0 0 4 0 0 0 0 0", "STACK WIN 4 %x %x 1 2 3 4 5 6 1 $T0 $ebp ="), ]
+    for same, other in kinds:
+        for b in second:
+            out.append([same % (0x1000, 0x10), same % b])
+            out.append([same % b, same % (0x1000, 0x10)])
+            out.append([same % (0x1000, 0x10), other % b, same % b])
+            for c in third:
+                out.append([same % (0x1000, 0x10), same % b, same % c])
+    return [("MODULE Linux x86 ABC name\n" + "\n".join(t) + "\nFILE 5 after\n").encode() for t in out]
+
+
 def kept_long_files(rng):
     """(file, schedule, number of FILE records): valid files with one long FILE record whose line (with its newline) has at most
     81920 bytes - never "over-long": the code documents "at least 80KB symbol names", and the model proves that only lines
@@ -175,6 +196,9 @@ class C09(PropBase):
         # 2b". sub-records before / across / inside / after their group's address range, sizes 0 / 1 / large, top of the address space
         for data in func_range_files():
             add("func-range", data, tag="ok")
+        # 2b"-win. STACK WIN records of one kind with identical / same-start / nested / overlapping / touching / disjoint ranges
+        for data in win_overlap_files():
+            add("win-overlap", data, tag="ok")
         # 2b"'. a long but not over-long record (line <= 80 KiB) is never dropped: all FILE records must be in the table
         for data, sched, nfiles in kept_long_files(rng):
             add("kept-long", data, sched, tag="keep%d" % nfiles)
